@@ -50,7 +50,7 @@ private theorem requestLoop_spec (u : UEnv) (s : Text) (atts : Atts) (m : Int) (
     (hs : s = pre ++ rest) (hsane : u.sane s) (hstart : start ≤ pre.length) (hne : rest ≠ [])
     (hwid : width = colWidth u (pre.drop start)) (hwm : width ≤ m) :
     ∃ w ch taken remaining,
-      requestLoop u s atts m start rest i width
+      requestLoop u s atts m start s.length rest i width
         = .ok (w, ch, i + taken.length, width + colWidth u taken) ∧
       rest = taken ++ remaining ∧ ch.atts = atts ∧
       ((ch.s = pre.drop start ++ taken ∧ w = width + colWidth u taken ∧ w ≤ m ∧
